@@ -158,8 +158,59 @@ func ruleTypedChildStores(c *Ctx, r *Report) int {
 // the last entry.
 func ruleOneBasedIndexGuard(c *Ctx, r *Report, scope func(*ssa.Function) bool) int {
 	n := 0
+	idx := 0
+	lastFn := (*ssa.Function)(nil)
+	judge := func(f *ssa.Function, fact linForm, acc *ssa.BasicBlock, X ssa.Value, id func(ssa.Value) ssa.Value, at token.Pos) {
+		if f != lastFn {
+			lastFn, idx = f, 0
+		}
+		if len(fact.cs) != 1 {
+			return
+		}
+		var par ssa.Value
+		for leaf, cf := range fact.cs {
+			if cf == 1 {
+				if p, isPar := stripConv(leaf).(*ssa.Parameter); isPar && p.Parent() == f {
+					par = p
+				}
+			}
+		}
+		if par == nil {
+			return
+		}
+		// uses of X indexed by par+c in blocks the accepting arm dominates
+		maxOff, have := int64(0), false
+		for _, b2 := range f.Blocks {
+			if !(b2 == acc || acc.Dominates(b2)) {
+				continue
+			}
+			for _, i2 := range b2.Instrs {
+				ia, ok := i2.(*ssa.IndexAddr)
+				if !ok || !sameSSA(ia.X, X) {
+					continue
+				}
+				lf := linOf(ia.Index, id, 0)
+				if len(lf.cs) == 1 && lf.cs[id(par)] == 1 {
+					if !have || lf.k > maxOff {
+						maxOff, have = lf.k, true
+					}
+				}
+			}
+		}
+		if !have {
+			return
+		}
+		n++
+		idx++
+		key := fmt.Sprintf("%s:index-guard#%d", SSAFuncName(f), idx)
+		// fact: len >= par + fact.k ; needed: len >= par + maxOff + 1
+		if fact.k > maxOff+1 {
+			r.Bad("G7-IDX", key, c.Pos(at), fmt.Sprintf("the index is rejected unless len >= index%+d, but the element read is index%+d: the last %d valid element(s) are refused", fact.k, maxOff, fact.k-maxOff-1))
+		} else {
+			r.OK("G7-IDX", key, c.Pos(at), "the rejection admits every element that is read")
+		}
+	}
 	for _, f := range libFuncs(c, scope) {
-		idx := 0
 		// rejecting guards: If with one rejecting arm whose condition relates len(X) to a linear form of a parameter
 		for _, b := range f.Blocks {
 			if len(b.Instrs) == 0 {
@@ -195,54 +246,68 @@ func ruleOneBasedIndexGuard(c *Ctx, r *Report, scope func(*ssa.Function) bool) i
 			}
 			id := newCanon()
 			fact, ok := lenBoundFact(ifi.Cond, rej1, X, id) // truth on the accepting arm: cond true iff arm 0 accepts
-			if !ok || len(fact.cs) != 1 {
+			if !ok {
 				continue
 			}
-			var par ssa.Value
-			for leaf, cf := range fact.cs {
-				if cf == 1 {
-					if p, isPar := stripConv(leaf).(*ssa.Parameter); isPar {
-						par = p
-					}
-				}
-			}
-			if par == nil {
-				continue
-			}
-			// uses of X indexed by par+c in blocks the accepting arm dominates
 			acc := b.Succs[0]
 			if rej0 {
 				acc = b.Succs[1]
 			}
-			maxOff, have := int64(0), false
-			for _, b2 := range f.Blocks {
-				if !(b2 == acc || acc.Dominates(b2)) {
-					continue
-				}
-				for _, i2 := range b2.Instrs {
-					ia, ok := i2.(*ssa.IndexAddr)
-					if !ok || !sameSSA(ia.X, X) {
-						continue
-					}
-					lf := linOf(ia.Index, id, 0)
-					if len(lf.cs) == 1 && lf.cs[id(par)] == 1 {
-						if !have || lf.k > maxOff {
-							maxOff, have = lf.k, true
+			judge(f, fact, acc, X, id, ifi.Pos())
+		}
+		// the same rejection inside a checking helper: `if err := checkNr(nr, len(b.tab)); err != nil { return }`
+		for _, b := range f.Blocks {
+			if len(b.Instrs) == 0 {
+				continue
+			}
+			ifi, ok := b.Instrs[len(b.Instrs)-1].(*ssa.If)
+			if !ok {
+				continue
+			}
+			bo, ok := ifi.Cond.(*ssa.BinOp)
+			if !ok || (bo.Op != token.NEQ && bo.Op != token.EQL) || bo.X.Type().String() != "error" {
+				continue
+			}
+			if k, isC := bo.Y.(*ssa.Const); !isC || k.Value != nil {
+				continue
+			}
+			call, ok := bo.X.(*ssa.Call)
+			if !ok {
+				continue
+			}
+			acc := b.Succs[1] // err != nil false
+			if bo.Op == token.EQL {
+				acc = b.Succs[0]
+			}
+			var X ssa.Value
+			for _, o := range call.Call.Args {
+				if lc, ok := stripConv(o).(*ssa.Call); ok {
+					if bi, ok := lc.Call.Value.(*ssa.Builtin); ok && bi.Name() == "len" {
+						if ld, ok := lc.Call.Args[0].(*ssa.UnOp); ok {
+							if _, isF := ld.X.(*ssa.FieldAddr); isF {
+								X = lc.Call.Args[0]
+							}
 						}
 					}
 				}
 			}
-			if !have {
+			if X == nil {
 				continue
 			}
-			n++
-			idx++
-			key := fmt.Sprintf("%s:index-guard#%d", SSAFuncName(f), idx)
-			// fact: len >= par + fact.k ; needed: len >= par + maxOff + 1
-			if fact.k > maxOff+1 {
-				r.Bad("G7-IDX", key, c.Pos(ifi.Pos()), fmt.Sprintf("the index is rejected unless len >= index%+d, but the element read is index%+d: the last %d valid element(s) are refused", fact.k, maxOff, fact.k-maxOff-1))
-			} else {
-				r.OK("G7-IDX", key, c.Pos(ifi.Pos()), "the rejection admits every element that is read")
+			for _, hf := range errorHelperFacts(call) {
+				id := newCanon()
+				subst := hf.subst
+				idSub := func(v ssa.Value) ssa.Value {
+					if a, ok := subst[stripConv(v)]; ok {
+						return id(stripConv(a))
+					}
+					return id(v)
+				}
+				fact, ok := lenBoundFact(hf.cond, hf.truth, X, idSub)
+				if !ok {
+					continue
+				}
+				judge(f, fact, acc, X, id, ifi.Pos())
 			}
 		}
 	}
